@@ -86,18 +86,32 @@ def rule_m1(chk: Check, ix: Index):
     why = ""
     if helper is None:
         why = "no physical-lines helper"
+    elif len(stores) == 2 and all(isinstance(x.value, ast.Name) or isinstance(x.value, ast.Subscript) for x in stores):
+        # if/else form of the conditional expression: rebuild it
+        parent = [i for i in own_nodes(g.node) if isinstance(i, ast.If) and len(i.body) == 1 and len(i.orelse) == 1
+                  and {id(i.body[0]), id(i.orelse[0])} == {id(stores[0]), id(stores[1])}]
+        if parent and norm_stmt(stores[0].targets[0]) == norm_stmt(stores[1].targets[0]):
+            i = parent[0]
+            merged = ast.Assign(targets=[i.body[0].targets[0]], value=ast.IfExp(test=i.test, body=i.body[0].value, orelse=i.orelse[0].value))
+            ast.copy_location(merged, i)
+            ast.fix_missing_locations(merged)
+            merged._parent_if = i
+            stores = [merged]
+        else:
+            why = "2 stores into the captured lines that are not the two arms of one if/else"
     elif len(stores) != 1:
         why = f"{len(stores)} stores into the captured lines"
-    else:
+    if not why and helper is not None and len(stores) == 1:
         st = stores[0]
-        loops = [(l, num, text) for l, num, text in physlines.consumer_loops(g.node, helper) if any(st is x for b in l.body for x in ast.walk(b))]
+        anchor = getattr(st, "_parent_if", st)
+        loops = [(l, num, text) for l, num, text in physlines.consumer_loops(g.node, helper) if any(anchor is x for b in l.body for x in ast.walk(b))]
         if not loops:
             why = "the store is not inside a loop over the physical lines of the token"
         else:
             loop, num, text = loops[0]
             if norm_stmt(st.targets[0].slice) != num:
                 why = f"stored under `{norm_stmt(st.targets[0].slice)}`, not under the line's own number"
-            guard = [i for i in ast.walk(loop) if isinstance(i, ast.If) and any(st is x for x in ast.walk(i))]
+            guard = [i for i in ast.walk(loop) if isinstance(i, ast.If) and i is not anchor and any(anchor is x for x in ast.walk(i))]
             if not why and not any(norm_stmt(i.test) == f"{num} not in lines" for i in guard):
                 why = "a line already captured is overwritten (first token on a line wins)"
             if not why:
@@ -163,8 +177,32 @@ def rule_m2(chk: Check, ix: Index):
                 "M2-delimiter-tables", "next_psuedo_matches:openers", h.where, "tokenizer and macro scanner must agree on what opens a bracket")
     # mismatch is detected against the innermost opener
     chk.count("M2-delimiter-tables")
-    ok = any(isinstance(n, ast.If) and norm_stmt(n.test) == "paren_level[-1] == opener" and norm_stmt(n.body[0]) == "paren_level.pop()"
-             for n in own_nodes(g.node))
+    ok = False
+    from ..pyflow import stmt_paths as _sp
+    for n in own_nodes(g.node):
+        if isinstance(n, ast.If) and norm_stmt(n.test) in ("paren_level[-1] == opener", "paren_level[-1] != opener", "opener == paren_level[-1]",
+                                                             "opener != paren_level[-1]"):
+            # the `if` together with what follows it in its own block (the non-matching arm may be a guard clause)
+            block = [n]
+            for holder in ast.walk(g.node):
+                for fld in ("body", "orelse"):
+                    seq = getattr(holder, fld, None)
+                    if isinstance(seq, list) and any(x is n for x in seq):
+                        block = seq[[i for i, x in enumerate(seq) if x is n][0]:]
+            try:
+                ps = _sp(block)
+            except AnalysisError:
+                continue
+            good = True
+            for pth in ps:
+                c = [x for x in pth if x[0] == "cond"][0]
+                match = (c[2] is True) == ("==" in c[1])
+                eff = [x[1] for x in pth if x[0] == "do"]
+                if match:
+                    good = good and eff == ["paren_level.pop()"] and pth[-1][1] == "end"
+                else:
+                    good = good and pth[-1][1] == "raise"
+            ok = good
     chk.require(ok, "M2-delimiter-tables", "consume_macro_params:nesting", g.where,
                 "a closing bracket must pop the innermost open bracket when (and only when) it matches it")
 
@@ -233,13 +271,29 @@ def rule_m4(chk: Check, ix: Index, I):
     # with macro: body text is the captured token's string
     h = ix.get("Parser.handle_with_macro_stmt")
     chk.count("M4-builders")
-    ok = any(norm_stmt(n) == "body = ast.Constant(value=b.string, **b.loc())" for n in own_nodes(h.node) if isinstance(n, ast.Assign))
-    chk.require(ok, "M4-builders", "handle_with_macro_stmt:body", h.where, "the block text passed to enter_macro must be the captured token's string")
     call = [n for n in ast.walk(h.node) if isinstance(n, ast.Call) and norm_stmt(n.func) == "xonsh_call" and n.args and
             isinstance(n.args[0], ast.Constant) and n.args[0].value == "__xonsh__.enter_macro"]
+    defs1 = {}
+    for n in own_nodes(h.node):
+        if isinstance(n, ast.Assign) and len(n.targets) == 1 and isinstance(n.targets[0], ast.Name):
+            defs1.setdefault(n.targets[0].id, []).append(n.value)
+
+    def expand(e):
+        seen = set()
+        while isinstance(e, ast.Name) and len(defs1.get(e.id, [])) == 1 and e.id not in seen:
+            seen.add(e.id)
+            e = defs1[e.id][0]
+        return norm_stmt(e)
+
+    args = [expand(a) for a in call[0].args[1:]] if len(call) == 1 else []
+    tokparam = [a.arg for a in h.node.args.args if a.arg != "self"][1] if len(h.node.args.args) > 2 else "b"
+    ok = len(args) == 4 and args[1] == f"ast.Constant(value={tokparam}.string, **{tokparam}.loc())"
+    chk.require(ok, "M4-builders", "handle_with_macro_stmt:body", h.where,
+                f"the block text passed to enter_macro must be the captured token's string (second argument is `{args[1] if len(args) > 1 else None}`)")
     chk.count("M4-builders")
-    chk.require(len(call) == 1 and [norm_stmt(a) for a in call[0].args[1:]] == ["a.context_expr", "body", "gblcall", "loccall"],
-                "M4-builders", "handle_with_macro_stmt:argument-order", h.where, "enter_macro takes (context, raw block, globals(), locals())")
+    ok = len(args) == 4 and args[0].endswith(".context_expr") and "globals" in args[2] and "locals" in args[3]
+    chk.require(ok, "M4-builders", "handle_with_macro_stmt:argument-order", h.where,
+                f"enter_macro takes (context, raw block, globals(), locals()); found {args}")
     # dedent only in the block form
     k = ix.get("Tokenizer.consume_with_macro_params")
     chk.count("M4-builders")
